@@ -165,7 +165,11 @@ func (c *Check) Expired() bool {
 	// ends like one that ran out of time - exhaustive=false, exit 0 - instead of being OOM-killed
 	// (not sticky: the part that outgrew the budget stops, a later part starts with what the
 	// collector gives back)
-	if last := c.memChecked.Load(); now.UnixNano()-last > int64(time.Second) && c.memChecked.CompareAndSwap(last, now.UnixNano()) {
+	every := int64(time.Second)
+	if c.memOver.Load() {
+		every = int64(200 * time.Millisecond) // re-examine soon: the part that stopped releases its bookkeeping
+	}
+	if last := c.memChecked.Load(); now.UnixNano()-last > every && c.memChecked.CompareAndSwap(last, now.UnixNano()) {
 		var ms runtime.MemStats
 		runtime.ReadMemStats(&ms)
 		if ms.HeapAlloc > memLimit() {
